@@ -499,7 +499,7 @@ var (
 
 func TestPropPackets(t *testing.T) {
 	full := vt.Thorough()
-	vt.Check(t, 150, 600, func(t *rapid.T) {
+	vt.Check(t, 600, 1500, func(t *rapid.T) {
 		c := genPkt(t)
 		disarm := vt.Watchdog(t, 120*time.Second, c, "NTS packet processing did not terminate on a mutated packet")
 		st := checkPacket(t, c, full)
@@ -609,7 +609,7 @@ func checkCookie(t failer, c ckCase) int {
 }
 
 func TestPropCookies(t *testing.T) {
-	vt.Check(t, 300, 3000, func(t *rapid.T) {
+	vt.Check(t, 1500, 8000, func(t *rapid.T) {
 		kl := rapid.OneOf(rapid.Just(32), rapid.IntRange(0, 64)).Draw(t, "keylen")
 		c := ckCase{
 			Algo:      rapid.OneOf(rapid.Just(uint16(15)), rapid.Uint16()).Draw(t, "algo"),
